@@ -1,22 +1,39 @@
 (* C11 - allOf is conjunction and anyOf is disjunction for object schemas.
    Statements only; every proof is `exact <lemma>`; Print Assumptions under each.
    allOf: the generator resolves the branches, merges them (mergo; Model/Merge.v transcribes it on the modelled
-   keywords) and generates the merged schema inline (C11_allOf_generated).  For object branches with pairwise
-   disjoint property sets the merged schema is, under the reference semantics, exactly the conjunction of the
-   branches on every document, and its properties are the union of theirs (C11_allOf_merge).  Branch lists that
-   share a property are deep-merged through shared pointers by mergo: outside the model (merge2 = None, gen =
-   GUnmod), decided on the implementation against the reference semantics.  All-primitive branch lists are not
-   merged at all: refuted lemma below (outside "object schemas").
+   keywords, the deep merge of shared properties and item schemas included) and generates the merged schema inline
+   (C11_allOf_generated).  The merged schema is, under the reference semantics, exactly the conjunction of the
+   branches on every document (C11_allOf_merge, C11_allOf_merge_step) whenever the branches are compatible: where
+   they describe the same position they do not both set the same scalar keyword, do not both list an enum and
+   agree on the type list.  Without compatibility the statement is false of the code (C11_refuted_first_wins;
+   recorded findings C11-first-wins-scalar and C11-allof-enum-union).  All-primitive branch lists are not merged
+   at all: refuted lemma below (outside "object schemas").  The merge writes through the pointers of its first
+   branch; what that does to other users of a shared definition is outside the pure model (recorded finding
+   C11-overlay-leaks-into-shared-definition).
    anyOf: the validator (validator.go:416-441) accepts iff at least one branch type accepts, for every list of
-   branch types and every document; the merge of anyOf branches into the carrier struct is not modelled (gen = GUnmod). *)
-From GJS Require Import Base Schema Merge GoType Gen Exec Valid ExecP GenP MergeP.
+   branch types and every document (C11_anyOf_validator).  For inline object branches the generator is modelled end
+   to end (C11_anyOf_generated): the branch types <scope>_<i> come from the branches themselves (a branch given by
+   reference is the declared type of its definition), the carrier struct
+   <scope> from their merge, and its method runs the anyOf validator alone; the method then (C11_anyOf_method) accepts
+   only documents that one branch type accepts (C11_anyOf_sound), accepts them as soon as they also decode into the
+   carrier (C11_anyOf_accepts) and rejects the documents no branch accepts (C11_anyOf_rejects).  The second
+   condition of C11_anyOf_accepts is where the implementation is stricter than the disjunction (a key that one branch
+   leaves open and another branch types is decoded with that type): recorded finding, decided on the implementation. *)
+From GJS Require Import Base Schema Merge GoType Ident Gen Exec Valid ExecP GenP MergeP AnyOfP.
 
 Theorem C11_allOf_merge : forall fmt_ok defs bs m f j,
-  forallb plain bs = true -> forallb obj_typed bs = true ->
+  forallb prim_or_untyped bs = false -> compat_all empty_schema bs = true ->
   merge_types bs = Some m ->
-  valid fmt_ok defs (S f) m j = forallb (fun b => valid fmt_ok defs (S f) b j) bs /\ s_props m = flat_map s_props bs.
+  valid fmt_ok defs (S f) m j = forallb (fun b => valid fmt_ok defs (S f) b j) bs.
 Proof. exact merge_is_conjunction. Qed.
 Print Assumptions C11_allOf_merge.
+
+(* one merge step, at any nesting depth: two compatible descriptions of one position *)
+Theorem C11_allOf_merge_step : forall fmt_ok defs g f d s m j,
+  compat g d s = true -> merge2 g d s = Some m ->
+  plain m = true /\ valid fmt_ok defs f m j = valid fmt_ok defs f d j && valid fmt_ok defs f s j.
+Proof. exact merge2_conj. Qed.
+Print Assumptions C11_allOf_merge_step.
 
 Theorem C11_allOf_generated : forall idf cf defs f self sub c props addl af items b bs scope m,
   c_enum c = None -> c_ref c = None -> all_of_schema defs (b :: bs) = Done m ->
@@ -26,10 +43,28 @@ Print Assumptions C11_allOf_generated.
 
 Theorem C11_allOf_inhabited :
   exists m, merge_types [ob [97]%N SString; ob [98]%N SInteger] = Some m /\
-    forallb plain [ob [97]%N SString; ob [98]%N SInteger] = true /\ forallb obj_typed [ob [97]%N SString; ob [98]%N SInteger] = true /\
+    forallb prim_or_untyped [ob [97]%N SString; ob [98]%N SInteger] = false /\ compat_all empty_schema [ob [97]%N SString; ob [98]%N SInteger] = true /\
     map fst (s_props m) = [[97]%N; [98]%N].
 Proof. exact merge_inhabited. Qed.
 Print Assumptions C11_allOf_inhabited.
+
+(* branches that share a property (one gives it a type and maxLength 4, the other minLength 2): the shared property is deep-merged *)
+Theorem C11_allOf_shared_inhabited :
+  exists m, merge_types [ob_shared1; ob_shared2] = Some m /\
+    forallb prim_or_untyped [ob_shared1; ob_shared2] = false /\ compat_all empty_schema [ob_shared1; ob_shared2] = true /\
+    map fst (s_props m) = [[97]%N; [115]%N; [98]%N] /\
+    option_map (fun p => (c_min_len (s_con p), c_max_len (s_con p))) (lookup [115]%N (s_props m)) = Some (2, 4).
+Proof. exact merge_shared_inhabited. Qed.
+Print Assumptions C11_allOf_shared_inhabited.
+
+(* the compatibility hypothesis cannot be dropped: two branches that both bound the length of one property - the first bound wins *)
+Theorem C11_refuted_first_wins :
+  exists m, merge_types [len_branch 1; len_branch 3] = Some m /\
+    compat_all empty_schema [len_branch 1; len_branch 3] = false /\
+    valid (fun _ _ => true) [] 4 m (JObj [([97]%N, JStr [120; 121]%N)]) = true /\
+    forallb (fun b => valid (fun _ _ => true) [] 4 b (JObj [([97]%N, JStr [120; 121]%N)])) [len_branch 1; len_branch 3] = false.
+Proof. exact merge_first_wins_refuted. Qed.
+Print Assumptions C11_refuted_first_wins.
 
 Theorem C11_refuted_primitive_branches :
   exists m, merge_types [prim_branch] = Some m /\
@@ -43,6 +78,69 @@ Theorem C11_anyOf_validator : forall decf raw j branches,
   before_step decf raw j (VAnyOf branches) = if existsb (fun bt => is_ok (decf bt j)) branches then Ok tt else Err.
 Proof. exact anyof_step. Qed.
 Print Assumptions C11_anyOf_validator.
+
+Theorem C11_anyOf_generated : forall idf cf defs f self sub c props addl af items allof a ar scope t b,
+  c_enum c = None -> c_ref c = None -> g_only_models cf = false ->
+  gen idf cf defs (S f) MInline self sub (Sch c props addl af items allof (a :: ar)) scope = Done (t, b) ->
+  exists rs m brs ch nm fs plan0,
+    existsb composite (a :: ar) = false /\
+    resolve_branches defs (a :: ar) = Done rs /\
+    merge_types rs = Some m /\
+    Forall2 (fun ib y => match c_ref (s_con (snd ib)) with
+                         | Some x => y = (TRef x, c_bounds (s_con (snd ib)))
+                         | None => gen idf cf defs f MInline self true (snd ib) (suffixed scope (fst ib)) = Done y
+                         end)
+            (combine (seq 0 (length (a :: ar))) (a :: ar)) brs /\
+    gen idf cf defs f MInline self false m scope = Done (TStruct (ch :: nm) fs plan0, b) /\
+    t = TStruct (ch :: nm) fs (Some [VAnyOf (map fst brs)]).
+Proof. exact anyof_generated. Qed.
+Print Assumptions C11_anyOf_generated.
+
+Theorem C11_anyOf_method : forall fmt_ok env f ch nm fs brs j,
+  dec fmt_ok env (S f) (TStruct (ch :: nm) fs (Some [VAnyOf brs])) j =
+  match j with
+  | JNull | JObj _ =>
+      let raw := match j with JObj kv => Some (Some kv) | _ => Some None end in
+      obind (before_step (dec fmt_ok env f) raw j (VAnyOf brs)) (fun _ =>
+      obind (plain_fields (dec fmt_ok env f) zero fs j) (fun st => addl_block fs raw st))
+  | _ => Err
+  end.
+Proof. exact anyof_method. Qed.
+Print Assumptions C11_anyOf_method.
+
+Theorem C11_anyOf_sound : forall fmt_ok env f ch nm fs brs j v,
+  dec fmt_ok env (S f) (TStruct (ch :: nm) fs (Some [VAnyOf brs])) j = Ok v ->
+  exists bt, In bt brs /\ is_ok (dec fmt_ok env f bt j) = true.
+Proof. exact anyof_accepts_some_branch. Qed.
+Print Assumptions C11_anyOf_sound.
+
+Theorem C11_anyOf_accepts : forall fmt_ok env f ch nm fs brs kv st st',
+  (forall bt, In bt brs -> dec fmt_ok env f bt (JObj kv) <> Crash /\ dec fmt_ok env f bt (JObj kv) <> NoFuel) ->
+  existsb (fun bt => is_ok (dec fmt_ok env f bt (JObj kv))) brs = true ->
+  plain_fields (dec fmt_ok env f) zero fs (JObj kv) = Ok st -> addl_block fs (Some (Some kv)) st = Ok st' ->
+  dec fmt_ok env (S f) (TStruct (ch :: nm) fs (Some [VAnyOf brs])) (JObj kv) = Ok st'.
+Proof. exact anyof_accepts. Qed.
+Print Assumptions C11_anyOf_accepts.
+
+Theorem C11_anyOf_rejects : forall fmt_ok env f ch nm fs brs kv,
+  (forall bt, In bt brs -> dec fmt_ok env f bt (JObj kv) <> Crash /\ dec fmt_ok env f bt (JObj kv) <> NoFuel) ->
+  existsb (fun bt => is_ok (dec fmt_ok env f bt (JObj kv))) brs = false ->
+  dec fmt_ok env (S f) (TStruct (ch :: nm) fs (Some [VAnyOf brs])) (JObj kv) = Err.
+Proof. exact anyof_rejects. Qed.
+Print Assumptions C11_anyOf_rejects.
+
+Theorem C11_anyOf_inhabited :
+  exists t b,
+    gen (fun s => s) (mkCfg false false) [] 6 MInline None false ex_any ex_t = Done (t, b) /\
+    (exists fs b0 b1, t = TStruct ex_t fs (Some [VAnyOf [b0; b1]])) /\
+    is_ok (dec (fun _ _ => true) [] 6 t (JObj [([97]%N, JStr [120]%N)])) = true /\
+    is_ok (dec (fun _ _ => true) [] 6 t (JObj [([98]%N, JInt 1)])) = true /\
+    dec (fun _ _ => true) [] 6 t (JObj []) = Err /\
+    dec (fun _ _ => true) [] 6 t (JObj [([97]%N, JInt 1)]) = Err /\
+    valid (fun _ _ => true) [] 4 ex_any (JObj [([97]%N, JStr [120]%N)]) = true /\
+    valid (fun _ _ => true) [] 4 ex_any (JObj []) = false.
+Proof. exact anyof_inhabited. Qed.
+Print Assumptions C11_anyOf_inhabited.
 
 (* the reference semantics the implementation is compared with *)
 Theorem C11_spec : forall fmt_ok defs f c props addl af items allof anyof j,
